@@ -180,15 +180,20 @@ def kernel_call(module, fn, inputs, tag='f', shard=400):
                 'Eval vm_compute in flat_map (fun c => show (%s c)) cases.' % fn]
         with open(path, 'w') as f:
             f.write('\n'.join(body) + '\n')
-        procs.append((name, len(sh), subprocess.Popen('ulimit -s unlimited 2>/dev/null; timeout 900 coqc -Q %s Mido %s' % (COQ, path),
-                                                      shell=True, cwd=d, stdout=subprocess.PIPE, stderr=subprocess.STDOUT)))
+        # output goes to a file: a pipe fills up and blocks coqc while we wait for it
+        logf = open(os.path.join(d, name + '.out'), 'wb')
+        procs.append((name, len(sh), subprocess.Popen('ulimit -s unlimited 2>/dev/null; exec timeout 900 coqc -Q %s Mido %s' % (COQ, path),
+                                                      shell=True, cwd=d, stdout=logf, stderr=subprocess.STDOUT)))
+        logf.close()
         if len(procs) % NPROC == 0:
             for _, _, p in procs[-NPROC:]:
                 p.wait()
     res = []
     for name, n, p in procs:
-        out = p.communicate()[0].decode('utf-8', 'replace')
-        for ext in ('.v', '.vo', '.vok', '.vos', '.glob'):
+        p.wait()
+        with open(os.path.join(d, name + '.out'), 'rb') as lf:
+            out = lf.read().decode('utf-8', 'replace')
+        for ext in ('.v', '.vo', '.vok', '.vos', '.glob', '.out'):
             try:
                 os.remove(os.path.join(d, name + ext))
             except OSError:
